@@ -8,6 +8,7 @@ from .ir import *
 from .vals import *
 from .fdom import BitsDom, RealDom
 from . import intrin
+from .smt import guarded_check
 
 
 class PathEnd(Exception):
@@ -73,7 +74,7 @@ class Interp:
     STEP_LIMIT = 3_000_000
 
     def __init__(s, mod, dom, decisions=None, pc=None, stats=None):
-        s.mod = mod; s.dom = dom; s.solver = z3.Solver(); s.pc = []; s.decisions = list(decisions or []); s.taken = []
+        s.mod = mod; s.dom = dom; s.solver = z3.Solver(); s.solver.set('timeout', 15000); s.pc = []; s.decisions = list(decisions or []); s.taken = []
         s.st = stats or Stats(); s.viol = []; s.regions = []; s.globals = {}; s.rcnt = 0; s.bases = {}
         s.notes = []; s.val_cache = {}; s.fma_fused = '+fma' in mod.target_features
         s.heap_calls = []; s.depth = 0; s.name_ite = False; s.pc_gen = 0
@@ -90,7 +91,7 @@ class Interp:
         if isinstance(c, int): return bool(c)
         import time
         s.st.queries += 1; t = time.time()
-        s.solver.push(); s.solver.add(c); r = s.solver.check(); s.solver.pop()
+        s.solver.push(); s.solver.add(c); r = guarded_check(s.solver, 20); s.solver.pop()
         s.st.solver_s += time.time() - t
         if r == z3.unknown: raise EncodingError('feasibility unknown')
         return r == z3.sat
@@ -112,7 +113,7 @@ class Interp:
         s.solver.push()
         while True:
             s.st.queries += 1
-            r = s.solver.check()
+            r = guarded_check(s.solver, 20)
             if r == z3.unknown: s.solver.pop(); raise EncodingError('values_of unknown')
             if r != z3.sat: break
             v = s.solver.model().eval(t, model_completion=True).as_long(); vals.append(v)
